@@ -268,6 +268,11 @@ def helpers(ctx):
                     idx = named(header, names)
                     if len(idx) != red.header.total_points() or not np.array_equal(np.asarray(red.body.data.data), a[:, :, idx]) or any(c.name == "POSE_WORLD_LANDMARKS" for c in red.header.components):
                         ctx.violation("reduce_holistic does not keep exactly the named points with their values", {"format": kind}, {}, True, signature={"clause": "reduce_holistic"})
+                    # the same reduction through the Lean model (Model/Helpers.lean `reduceHolistic`: one get_components call with the helper's two name tables)
+                    ig, co = reduce_tables()
+                    if ig and co:
+                        model_reqs.append({"op": "reduce_holistic", "components": pc.canon_header(header)["components"], "ignore": [pc.hx(x) for x in ig], "contours": [pc.hx(x) for x in co]})
+                        model_meta.append((kind, "reduce_holistic", (pc.canon_header(red.header)["components"], idx)))
                     # exactly the points it names are dropped: face points off the contours, face / finger / foot points of the body, the world landmarks — nothing else
                     ignore, contours = reduce_tables()
                     want = []
@@ -283,6 +288,12 @@ def helpers(ctx):
                 ctx.violation("a known-format helper fails on a pose of its format", {"format": kind, "points": N}, {"error": "%s: %s" % (type(e).__name__, e)}, True, signature={"clause": "helper_raises"})
     for (kind, what, got), mo in zip(model_meta, ctx.driver.run(model_reqs) if model_reqs else []):
         ctx.count("helper_model:" + what)
+        if what == "reduce_holistic":
+            comps_got, idx_got = got
+            if not mo.get("ok") or pc.diff(mo["components"], comps_got) or mo["indexes"] != idx_got:
+                ctx.violation("reduce_holistic differs from its model (the selection the helper's name tables describe)", {"format": kind, "helper": what},
+                              {"model_ok": mo.get("ok"), "d": pc.diff(mo.get("components"), comps_got) if mo.get("ok") else None}, False)
+            continue
         st = mo["steps"][-1]
         if "error" in st:
             ctx.violation("the model refuses a helper the implementation performs", {"format": kind, "helper": what}, {}, False); continue
